@@ -177,6 +177,7 @@ type pChunker struct {
 }
 
 func (c *pChunker) start(ctx context.Context) {
+	defer verifYield("pchunk.exit")
 	defer close(c.results)
 	defer c.stop()
 	for {
